@@ -31,6 +31,9 @@ type c09bCase struct {
 	// of the window period itself), whenever that keeps start times in order
 	Align    []int `json:"align,omitempty"`
 	AlignOff []int `json:"align_off,omitempty"`
+	// Via: what sits between the windowed limit and the algorithm - nothing, or a traced limit (a pass-through wrapper;
+	// "traced-debug": with a logger that formats its arguments). The algorithm must receive the same folds either way.
+	Via string `json:"via,omitempty"`
 }
 
 // samples expands the case into the sequence fed to the limit.
@@ -99,6 +102,7 @@ func genC09b(t *rapid.T) c09bCase {
 			c.AlignOff = append(c.AlignOff, rapid.SampledFrom([]int{0, 0, -1, 1}).Draw(t, "alignOff"))
 		}
 	}
+	c.Via = rapid.SampledFrom([]string{"", "", "traced", "traced-debug"}).Draw(t, "via")
 	if rapid.IntRange(0, 24).Draw(t, "bulk") == 0 {
 		c.BulkAt = rapid.IntRange(0, n).Draw(t, "bulkAt")
 		c.BulkN = rapid.SampledFrom([]int{300, 5000, 32767, 65534, 65535, 65536, 65537, 70000, 131071, 131072}).Draw(t, "bulkN")
@@ -110,7 +114,14 @@ func genC09b(t *rapid.T) c09bCase {
 
 func runC09b(_ *testing.T, c c09bCase) kit.Outcome {
 	rec := &recLimit{est: 7}
-	w, err := limit.NewWindowedLimit("w", c.WinMin, c.WinMax, c.WinSize, c.Threshold, rec, nil)
+	var delegate core.Limit = rec
+	switch c.Via {
+	case "traced":
+		delegate = limit.NewTracedLimit(rec, limit.NoopLimitLogger{})
+	case "traced-debug":
+		delegate = limit.NewTracedLimit(rec, debugDiscardLogger{})
+	}
+	w, err := limit.NewWindowedLimit("w", c.WinMin, c.WinMax, c.WinSize, c.Threshold, delegate, nil)
 	if err != nil {
 		return kit.Outcome{Harness: "constructor rejected a valid configuration: " + err.Error()}
 	}
@@ -236,7 +247,7 @@ func TestC09_windowed(t *testing.T) {
 	kit.RequireMode(t, "std")
 	kit.Check(t, kit.Prop[c09bCase]{
 		ID: "C09", Quick: 4000, Thor: 800_000,
-		Rule: "WindowedLimit over a recording delegate fed generated (start, rtt, in-flight, drop) sequences, some with a quiet stretch of up to 131072 samples folded into one window; delegate's OnSample list compared element-wise with a reference fold; non-trivial = >=2 windows closed, a drop inside a window that is not its closing sample, a sub-threshold sample",
+		Rule: "WindowedLimit over a recording delegate (directly or through a traced limit) fed generated (start, rtt, in-flight, drop) sequences, some with a quiet stretch of up to 131072 samples folded into one window; delegate's OnSample list compared element-wise with a reference fold; non-trivial = >=2 windows closed, a drop inside a window that is not its closing sample, a sub-threshold sample",
 		Gen:  genC09b, Run: runC09b,
 	})
 }
